@@ -368,8 +368,8 @@ def run_check(prop, tier):
                    "bodies with at least one branch or loop" % (steps, total, len(cases), "" if total == len(cases) else ", largest size class sampled"),
            "samples": [{"source": srcs[i]} for i in (0, len(srcs) // 2, len(srcs) - 1)],
            "clauses_of_this_property": clauses,
-           "impl_model": {"module": "Lifting.tla", "trees_on_which_the_model_satisfies_the_reference_clauses": len(recs) - len(l1),
-                          "model_violations": len(l1), "bodies_where_the_real_graph_equals_the_model_graph": len(recs) - len(drift),
+           "impl_model": {"module": "Lifting.tla (graph), CfgTrace!IDF (phi placement)", "trees_on_which_the_model_satisfies_the_reference_clauses": len(recs) - len(l1),
+                          "model_violations": len(l1), "bodies_where_the_real_graph_and_phi_placement_equal_the_model": len(recs) - len(drift),
                           "drift": len(drift)}}
     return v.finish(cov, assumptions=["statements are identified in the exported graphs by the literal they carry",
                                       "loop unrolling bound: each condition is decided true at most twice per run"])
